@@ -199,12 +199,14 @@ def run(ctx: Ctx) -> None:
         # tie of the modelled block sub-parser (mini_provenance is a theorem about exactly this model)
         from . import miniblock
         miniblock.tie(ctx, drv, 2500 if quick else 60000)
+        miniblock.tie_quote(ctx, drv, 2500 if quick else 60000)
     finally:
         drv.close()
     ctx.partial += [
         "provenance (a token kind appears only if one of its producing rules is enabled) is PROVED for the modelled sub-parser "
         "(Props/C10b.lean mini_provenance, mini_no_hr, mini_no_code, mini_zero: code/fence/hr/heading/paragraph under all 16 "
-        "subsets; model tied by the `miniblock` differential runs); for the other rules and for the conservative-extension "
+        "subsets; model tied by the `miniblock` differential runs) and with block quotes nested to any depth (Props/C10c.lean "
+        "q_provenance, q_no_hr; tie `qblock`); for the other rules and for the conservative-extension "
         "clause (the table rule declines without a pipe) it needs per-rule models and is decided by the oracle; the dispatch "
         "part — a disabled rule is in no chain — is a theorem",
     ]
